@@ -24,6 +24,8 @@ func (r *RNG) Bool() bool               { return r.U64()&1 == 1 }
 func (r *RNG) P(pct int) bool           { return r.Intn(100) < pct }
 func (r *RNG) Pick(xs ...string) string { return xs[r.Intn(len(xs))] }
 
+func (r *RNG) PickT(xs ...*TyDef) *TyDef { return xs[r.Intn(len(xs))] }
+
 func (r *RNG) Bytes(n int) []byte {
 	b := make([]byte, n)
 	for i := range b {
